@@ -17,6 +17,17 @@
 //!     SV:r:value set_node_value   SD:r:data set_data   AD:r:data append_data   ID:r:off:data insert_data
 //!     DD:r:off:cnt delete_data    RD:r:off:cnt:data replace_data   ST:r:off split_text   PD:r:data PI set_data
 //!     Q:d:expr   XPath node-set query on document d, edited tree vs re-parse of its serialisation
+//!     X:d:v      the XPath evaluator's document table of the CURRENT (edited) document d in view v
+//!                (0 raw, 1 merged text), built by the table builder of the `xpath` domain
+//!                (`super::xpath::Table::build`): result `x:<v>:<facts>:<n>+<row>+<row>...`, rows in the
+//!                line format of the `xpath` domain (`kind;id;key;parent;children;attrs;nss;name;data`,
+//!                references = table positions) with id = handle index (`~` for id 0, `?` unknown) and
+//!                key = rank among the distinct non-zero keys of the table; `x:<v>:<facts>:panic` when
+//!                the builder unwinds.  facts = the string facts of Model/StoreView.v the store does not
+//!                hold, read through the info / dom item (NOT through the table): `a<h>=<normalized_value>`
+//!                per attribute handle of d, `r<h>=<XmlEntityReference::value>` per entity-reference
+//!                handle of d (`E` when the call fails), joined by `^` (`-` when there are none).
+//!                A private harness (bin/agent-env) that links this file must also link xpath.rs.
 //!
 //! Output: ONE line, records joined by " | ".  Record 0 = `init` + description of the parsed
 //! documents (what the model driver needs to build the same store) + dump; record i = result class
@@ -726,6 +737,7 @@ enum Res {
     Opt(dom::error::Result<Option<XmlNode>>),
     New(usize, XmlNode),
     Query(String),
+    Table(String),
 }
 
 fn num(s: &str) -> usize {
@@ -931,6 +943,63 @@ fn run_op(st: &mut St, op: &str) -> Res {
             XmlNode::PI(p) => Res::Unit(p.set_data(&s(2))),
             _ => Res::Na,
         },
+        "X" => {
+            let d = match &r {
+                XmlNode::Document(d) => d.clone(),
+                _ => return Res::Na,
+            };
+            let merged = f.get(2) == Some(&"1");
+            // string facts of the model's view (sf_attr / sf_ref), straight from the items
+            let mut facts: Vec<String> = vec![];
+            for (h, (hd, n)) in st.hs.iter().enumerate() {
+                if *hd != rd {
+                    continue;
+                }
+                match n {
+                    XmlNode::Attribute(_) => {
+                        let v = item_of(n)
+                            .and_then(|i| i.as_attribute())
+                            .map(|a| xml_info::Attribute::normalized_value(&*a.borrow()));
+                        facts.push(format!(
+                            "a{}={}",
+                            h,
+                            match v {
+                                Some(Ok(s)) => enc(&s),
+                                _ => "E".to_string(),
+                            }
+                        ));
+                    }
+                    XmlNode::EntityReference(e) if kind(n) == "er" => {
+                        facts.push(format!(
+                            "r{}={}",
+                            h,
+                            match e.value() {
+                                Ok(s) => enc(&s),
+                                Err(_) => "E".to_string(),
+                            }
+                        ));
+                    }
+                    _ => {}
+                }
+            }
+            let facts = if facts.is_empty() { "-".to_string() } else { facts.join("^") };
+            st.set_view(merged);
+            let t = catch_unwind(AssertUnwindSafe(|| {
+                super::xpath::Table::build(&d).dump_canonical(&|n: &XmlNode| {
+                    if n.id() == 0 {
+                        "~".to_string()
+                    } else {
+                        match st.index.get(&(rd, n.id())) {
+                            Some(h) => h.to_string(),
+                            None => "?".to_string(),
+                        }
+                    }
+                })
+            }))
+            .unwrap_or_else(|_| "panic".to_string());
+            st.set_view(false);
+            Res::Table(format!("x:{}:{}:{}", merged as u8, facts, t))
+        }
         "Q" => {
             let d = match &r {
                 XmlNode::Document(d) => d.clone(),
@@ -1021,6 +1090,7 @@ pub fn case(line: &str) -> String {
             Ok(Res::Unit(Ok(()))) => "ok".to_string(),
             Ok(Res::Unit(Err(e))) => exc(&e),
             Ok(Res::Query(q)) => q,
+            Ok(Res::Table(t)) => t,
             Ok(Res::New(d, n)) => format!("ok:{}", st.intern(d, n)),
             Ok(Res::Opt(Ok(None))) => "ok:~".to_string(),
             Ok(Res::Opt(Err(e))) | Ok(Res::Node(Err(e))) => exc(&e),
